@@ -93,6 +93,23 @@ def make_droplet(spec: dict):
     return cls(pos, spec["radius"], **kw)
 
 
+def refined_droplet(d):
+    """The droplet as the library's own refinement hands it back: rendered on a small grid
+    around it and passed through the real refine_droplet (one function evaluation)."""
+    from droplets.image_analysis import refine_droplet
+    from pde import CartesianGrid
+
+    if type(d).__name__ == "PerturbedDroplet3DAxisSym" or not d.radius > 0:
+        return d
+    try:
+        r = float(d.radius) + 1.0
+        grid = CartesianGrid([[float(x) - r, float(x) + r] for x in d.position], 6)
+        field = d.get_phase_field(grid)
+        return refine_droplet(field, d, least_squares_params={"max_nfev": 1})
+    except Exception:
+        return d
+
+
 def make_emulsion(specs: list[dict]):
     from droplets import Emulsion
 
